@@ -3,6 +3,7 @@
    steps and the socket's behaviour (how many bytes each socket write takes). *)
 From Coq Require Import List NArith Arith Bool.
 From OAP Require Import Base.Bytes Base.Res Model.WritePath Proofs.WritePathP.
+From OAP Require Import Model.ChanForms Gen.Chans Proofs.ChanFormsP.
 Import ListNotations.
 
 (* in every reachable state: socket bytes ++ remainder ++ queued = handshake ++ accepted frames, in acceptance order *)
@@ -32,6 +33,13 @@ Proof. exact rejected_enqueue_changes_nothing. Qed.
 Theorem C12_ws_one_message_per_frame : forall cap acts, forallb ws_act acts = true -> WsInv (wprun cap acts).
 Proof. exact ws_message_invariant. Qed.
 
+(* "a full write queue is reported as an error instead of blocking the caller": PEnq above is one total step because,
+   in the source as it is now (Gen/Chans.v, regenerated on every run), the only sends on a writeCh are the two in
+   tcpConn.write / wsConn.write and both are cases of a select with a default clause *)
+Theorem C12_enqueue_never_blocks_in_source :
+  all_nonblocking writeCh_sends = true /\ funcs_of writeCh_sends = [f_tcp_write; f_ws_write].
+Proof. exact writes_never_block. Qed.
+
 Print Assumptions C12_tcp_stream_invariant.
 Print Assumptions C12_tcp_socket_is_prefix.
 Print Assumptions C12_tcp_everything_transmitted_once.
@@ -39,3 +47,4 @@ Print Assumptions C12_handshake_first.
 Print Assumptions C12_enqueue_verdict.
 Print Assumptions C12_rejected_enqueue_changes_nothing.
 Print Assumptions C12_ws_one_message_per_frame.
+Print Assumptions C12_enqueue_never_blocks_in_source.
